@@ -394,9 +394,12 @@ int SQLITE3::Handle::fetchall(struct sqlite3_stmt * stmt, bloc::Collection ** rs
           decl[i] = bloc::Type::NUMERIC;
           break;
         case SQLITE_TEXT:
-          t.push_back(bloc::Value(new bloc::Literal((const char*) sqlite3_column_text(stmt, i))));
+        {
+          const char * text = (const char*) sqlite3_column_text(stmt, i);
+          t.push_back(bloc::Value(new bloc::Literal(text, sqlite3_column_bytes(stmt, i))));
           decl[i] = bloc::Type::LITERAL;
           break;
+        }
         case SQLITE_BLOB:
         {
           int sz = sqlite3_column_bytes(stmt, i);
@@ -703,8 +706,11 @@ int SQLITE3::Handle::fetch(bloc::Tuple ** row)
         t.push_back(bloc::Value(bloc::Numeric(sqlite3_column_double(_stmt, i))));
         break;
       case SQLITE_TEXT:
-        t.push_back(bloc::Value(new bloc::Literal((const char*) sqlite3_column_text(_stmt, i))));
+      {
+        const char * text = (const char*) sqlite3_column_text(_stmt, i);
+        t.push_back(bloc::Value(new bloc::Literal(text, sqlite3_column_bytes(_stmt, i))));
         break;
+      }
       case SQLITE_BLOB:
       {
         int sz = sqlite3_column_bytes(_stmt, i);
